@@ -83,6 +83,15 @@ def advance(ctx, prog):
                     writes.append(bi)
     if not reads or not pushes:
         raise AnchorMissing("forward_device_data: native_readv / push_forwards not found")
+    # the read addresses the request's own filter log at the request's own cursor
+    for rb in reads:
+        t = f.blocks[rb]["t"]
+        for argi, fld in ((1, "filter_idx"), (2, "cursor")):
+            src = flatten_src(provenance(f, t["args"][argi]))
+            if src and all(x.kind == "param" and x.l == 1 and x.fields[-1:] == [fld] for x in src):
+                ctx.ok(rule, f.id, "native_readv reads at request.%s" % fld, site=f.loc(t.get("sp")))
+            else:
+                ctx.violation(rule, f.id, "native_readv %s" % fld, "the log is read with a %s that is not the request's own" % fld, site=f.loc(t.get("sp")))
     if writes and not (reachable_after(f, reads, avoid_blocks=writes) & set(pushes)):
         ctx.ok(rule, f.id, "request.cursor = <continuation of native_readv> on every path from the read to push_forwards", site=f.loc(f.blocks[writes[0]]["t"].get("sp")))
     else:
@@ -659,6 +668,30 @@ def start(ctx, prog):
                     ctx.ok(rule, p.id, "DataRequest{cursor, filter_idx} = the cursor/filter_idx parameters", site=p.loc(st.get("sp")))
                 else:
                     ctx.violation(rule, p.id, "DataRequest fields", "a new DataRequest does not start at the cursor / filter index it was given", site=p.loc(st.get("sp")))
+                # the remaining fields: filter path and granted QoS of the subscribed filter, the group it was given, a positive batch size
+                qs = flatten_src(provenance(p, st["rv"]["ops"][f.index("qos")]))
+                ps = flatten_src(provenance(p, st["rv"]["ops"][f.index("filter")], through_calls=[r"Clone>::clone$"]))
+                gs = flatten_src(provenance(p, st["rv"]["ops"][f.index("group")]))
+                mc = op_const(st["rv"]["ops"][f.index("max_count")])
+                problems = []
+                def is_filter_qos(s):
+                    if s.kind == "discr":     # `filter.qos as u8`: discriminant of the field
+                        src = flatten_src(place_provenance(p, s.pl))
+                        return bool(src) and all(x.kind == "param" and x.l == 5 and x.fields[-1:] == ["qos"] for x in src)
+                    return s.kind == "param" and s.l == 5 and s.fields[-1:] == ["qos"]
+                if not (qs and all(is_filter_qos(s) for s in qs)):
+                    problems.append("qos is not filter.qos")
+                ps = [s for s in ps if not (s.kind == "call" and s.path.endswith("Clone>::clone"))]
+                if not (ps and all(s.kind == "param" and s.l == 5 and s.fields[-1:] == ["path"] for s in ps)):
+                    problems.append("filter is not filter.path")
+                if not (gs and all(s.kind == "param" and s.l == 6 for s in gs)):
+                    problems.append("group is not the group parameter")
+                if mc is None or not mc.get("v"):
+                    problems.append("max_count is not a positive constant")
+                if problems:
+                    ctx.violation(rule, p.id, "DataRequest subscription fields", "a new DataRequest is built with the wrong subscription data: %s" % "; ".join(problems), site=p.loc(st.get("sp")))
+                else:
+                    ctx.ok(rule, p.id, "DataRequest{filter, qos, group, max_count} = filter.path, filter.qos, the group parameter, a positive batch size", site=p.loc(st.get("sp")))
     ctx.floor(rule, "DataRequest constructions in prepare_filter", n, 1)
     # next_native_offset returns the log's next offset (tail)
     nn = prog.one(r"^router::logs::DataLog::next_native_offset$")
